@@ -6,6 +6,7 @@
 #include <algorithm>
 #include <cstdio>
 #include <cstring>
+#include <iterator>
 #include <memory>
 #include <sstream>
 #include <unordered_map>
@@ -75,14 +76,14 @@ static void take_snap(const Position& p, Snap& s, bool heavy)
     s.pawn_hash = p.pawn_hash();
     s.history_counter = p._history_counter;
     uint64_t h = FNV_INIT;
-    for (int i = std::max(0, p._history_counter - 4); i < p._history_counter && i < MAX_PLIES; ++i) h = fnv1a_u64(h, p._history[i]);
+    for (int i = std::max(0, p._history_counter - 4); i < p._history_counter && i < int(std::size(p._history)); ++i) h = fnv1a_u64(h, p._history[i]);
     s.hist_tail = h;
     s.heavy = heavy;
     s.heavy_compares = 0;
     if (heavy)
     {
         uint64_t hf = FNV_INIT;
-        for (int i = 0; i < p._history_counter && i < MAX_PLIES; ++i) hf = fnv1a_u64(hf, p._history[i]);
+        for (int i = 0; i < p._history_counter && i < int(std::size(p._history)); ++i) hf = fnv1a_u64(hf, p._history[i]);
         s.hist_full = hf;
         s.fen = p.fen();
         Move buf[MAX_MOVES];
